@@ -340,7 +340,12 @@ func C03(c *Ctx) {
 	onlyCallers(c, r4, c.Fn("", "oracle.newCommitTs"), map[string]string{"(*NoKV.Txn).commitAndSend": "single commit path"}, 1)
 	onlyCallers(c, r4, c.Fn("", "Txn.commitAndSend"), map[string]string{"(*NoKV.Txn).Commit": "sync commit", "(*NoKV.Txn).CommitWith": "async commit"}, 2)
 
-	const r5 = "K2.conflict-test-shape"
+	conflictTestShapeGroup(c, "K2.conflict-test-shape")
+}
+
+// conflictTestShapeGroup: the oracle's conflict test, history pruning and write-fingerprint
+// recording (shared by C03 and C30: the embedded Redis gateway's INCR / SET NX rely on it).
+func conflictTestShapeGroup(c *Ctx, r5 string) {
 	c.Rule(r5, "oracle.hasConflict: a committed transaction is skipped only when ts <= readTs (strictly-newer commits are compared); a membership hit returns true; Txn.modify records the write fingerprint when DetectConflicts is on")
 	if fn := c.Fn("", "oracle.hasConflict"); fn != nil {
 		conflictShape(c, r5, fn)
@@ -384,6 +389,40 @@ func C03(c *Ctx) {
 		}
 		c.Decide(thr, r5, key(fn, "prune:ts<=readMark.DoneUntil"), fn.Pos(), 1, "only transactions at or below the oldest active read timestamp are pruned", "the history pruning threshold is no longer `ts <= readMark.DoneUntil()`")
 	}
+	// the read watermark of a transaction is released exactly once: history pruning trusts
+	// readMark.DoneUntil() to be below every open transaction's read timestamp
+	nDone := 0
+	for _, f := range c.P.ModFuncs {
+		if FuncPkgPath(f) != Module {
+			continue
+		}
+		for _, d := range Calls(f, false, Named("utils.(*WaterMark).Done", "utils.(*WaterMark).DoneMany")) {
+			if o, fld, ok := FieldOf(d.Common().Args[0]); !ok || o != "NoKV.oracle" || fld != "readMark" {
+				continue
+			}
+			nDone++
+			inDoneRead := FuncName(Root(f)) == "(*NoKV.oracle).doneRead"
+			c.Decide(inDoneRead, r5, "NoKV.oracle.readMark#Done-caller:"+FuncName(f), d.Pos(), 1, "the read mark is released only by oracle.doneRead (once-only flag)", "readMark.Done is called outside oracle.doneRead, bypassing the once-only flag: Discard releases the same read timestamp again, readMark.DoneUntil() overtakes a transaction that is still open at that timestamp and the conflict history it needs is pruned")
+			if inDoneRead {
+				flagEdge := false
+				for e := range boolFieldEdges(f, "NoKV.Txn", "doneRead", false) {
+					if EdgeDominates(e[0], e[1], d.Block()) {
+						flagEdge = true
+					}
+				}
+				set := false
+				for _, st := range fieldStoresIn(f, false, "NoKV.Txn", "doneRead") {
+					if sv, ok := st.(*ssa.Store); ok {
+						if k, ok := sv.Val.(*ssa.Const); ok && k.Value != nil && k.Value.String() == "true" && (Dominates(st, d.(ssa.Instruction)) || st.Block() == d.Block()) {
+							set = true
+						}
+					}
+				}
+				c.Decide(flagEdge && set, r5, key(f, "readMark.Done#once-only"), d.Pos(), 2, "released only when txn.doneRead was false, and the flag is set", "oracle.doneRead no longer tests and sets txn.doneRead around readMark.Done")
+			}
+		}
+	}
+	c.Decide(nDone >= 1, r5, "NoKV.oracle.readMark#has:Done", 0, 1, "read mark release site found", "no readMark.Done site found")
 	if fn := c.Fn("", "Txn.modify"); fn != nil {
 		ck := fieldStoresIn(fn, false, "NoKV.Txn", "conflictKeys")
 		pw := fieldStoresIn(fn, false, "NoKV.Txn", "pendingWrites")
